@@ -143,6 +143,7 @@ def run(ctx):
     res = ctx.run_engine(binary, TEST, {"behaviours": behaviours, "first": 0, "huge": MAXLEN + 1}, timeout=3000)
     ctx.absorb(res, ENGINE, TEST)
     ctx.coverage["steps_replayed"] = res.get("steps", 0)
+    ctx.coverage["calls_slower_than_the_watchdog_time_that_did_return"] = res.get("stats", {}).get("slow_calls", 0)
     ctx.coverage["behaviours_generated"] = len(behaviours)
     shapes = shape_counts(behaviours)
     ctx.coverage.update(shapes)
